@@ -68,7 +68,7 @@ def render(seq, commented, sep):
             if not inside:
                 exp["lic"].add(v)
         elif t == "C":
-            v = f"SPDX-FileCopyrightText: 20{k:02d} Holder{k}"
+            v = f"SPDX-FileCopyrightText: 20{k:02d} Holder{k}" + (" Straße" if k % 2 else "")
             parts.append(pre + v)
             if not inside:
                 exp["cop"].add(v)
@@ -78,7 +78,8 @@ def render(seq, commented, sep):
             if not inside:
                 exp["con"].add(v)
         elif t == "P":
-            parts.append(pre + f"plain{k} text")
+            # (also letters whose upper- / lower- / case-folded forms differ in length: offsets found in a folded copy are not offsets here)
+            parts.append(pre + [f"plain{k} text", f"Groß & Weiß{k} ﬁnal İstanbul ǰ", f"plain{k} ßßßß"][k % 3])
         elif t == "N":
             parts.append("")
     return sep.join(parts), exp
